@@ -10,8 +10,10 @@ function no longer rests on sampled agreement alone (`c07.url`), what is trusted
 
 Part of the change detectors (`Props/C07Pins.lean` imports it): a rewrite of `escapedLen` that keeps its behaviour
 but not its shape makes these proofs fail, fires the detector and widens the streams; nothing is claimed broken by
-that alone. The translated function is also run by the driver next to the real one (`c07.esclen`), which validates the
-translator (string indexing, `for` with a post statement, wrap-around arithmetic) against the real code.
+that alone. The function is found by its ROLE in `ServeHTTP` (called with the escaped path and `len(StripPath)`), not by
+name. The driver runs the translated function on every strip case of `c07.url` next to the model, whose request-target is
+compared with what the upstream received: that validates the translator (string indexing, `for` with a post statement,
+wrap-around arithmetic) through the real code.
 -/
 namespace Fabio.Props.C07Pins
 open Fabio Fabio.Xlate Fabio.Generated.C07
@@ -120,8 +122,7 @@ theorem xescapedLen_eq_model (s : B) (n : Int) (hs : (s.length : Int) + 3 < 9223
     exact ⟨i', _, hr, hi', hle, hd⟩
 
 /-- **xescapedLen_count.** What the translated `escapedLen` cuts off stands for exactly `n` decoded bytes — all of them
-when the path has fewer — in the specification's own way of counting (`decodedCount`, the predicate `c07.esclen`
-evaluates on the real function's result). -/
+when the path has fewer — in the specification's own way of counting (`decodedCount`). -/
 theorem xescapedLen_count (s : B) (n : Int) (hs : (s.length : Int) + 3 < 9223372036854775808)
     (hn : n < 9223372036854775808) :
     ∃ r st, XEscapedLen.run { p0 := s, p1 := n } = .ok (r, st) ∧ 0 ≤ r ∧ r ≤ s.length ∧
